@@ -209,6 +209,35 @@ def run(prog, R):
               'the growth call was reached %d times in the exploration, always with the buffer known to be full' % it.events.get('grow', 0) if it.events.get('grow', 0)
               else 'the growth call was not seen by the abstraction (it is made in a function that does not take the reader): not judged',
               undecided=(not bad and it.events.get('grow', 0) == 0))
+    # the end-of-input test itself: where the length of the buffer is compared with the capacity, it is compared as it is
+    # (mutation survey: `len() + 1 < capacity()` passes the suite)
+    from scev import Sym as _Sym, Aff as _Aff, Path as _Path
+    for fmt in ('fasta', 'fastq'):
+        for b_ in prog.bodies.values():
+            if not b_.key.startswith('%s::Reader::' % fmt) or b_.promoted_of is not None:
+                continue
+            if not any(t_.callee and t_.callee.is_('buffer_redux::BufReader::capacity') for _, t_ in b_.calls()):
+                continue
+            init_ = _Path()
+            init_.env[1] = _Aff.sym(('self',))
+            loops_ = b_.cfg.natural_loops()
+            starts_ = [0] + sorted(loops_)
+            seen_ = set()
+            for s0 in starts_:
+                for p_ in _Sym(prog, b_).run(s0, stops=set(loops_), init=init_):
+                    for (cx_, d_, tk_) in p_.conds:
+                        s1 = d_.single() if isinstance(d_, _Aff) else None
+                        if not (isinstance(s1, tuple) and s1[0] == 'cmp' and s1[1] in ('Lt', 'Le', 'Gt', 'Ge')):
+                            continue
+                        diff = s1[2] - s1[3]
+                        lens = [k for k in diff.t if isinstance(k, tuple) and k[0] == 'len' and isinstance(k[1], tuple) and k[1][0] == 'buffer']
+                        caps = [k for k in diff.t if isinstance(k, tuple) and k[0] == 'call' and 'capacity' in str(k[1])]
+                        if len(lens) == 1 and len(caps) == 1 and len(diff.t) == 2 and diff.t[lens[0]] == -diff.t[caps[0]] and (cx_, s1[1]) not in seen_:
+                            seen_.add((cx_, s1[1]))
+                            # the comparison must separate length < capacity from length >= capacity
+                            strict = (s1[1] in ('Lt', 'Ge')) if diff.t[lens[0]] > 0 else (s1[1] in ('Gt', 'Le'))
+                            R.add('GROW-7', b_, 'end-of-input-test-compares-length-with-capacity', diff.c == 0 and strict, site(b_, b_.blocks[cx_].term.line),
+                                  'buffer length %+d compared (%s) with the capacity: the buffer counts as "not full = end of input" exactly when length < capacity' % (diff.c * (1 if diff.t[lens[0]] > 0 else -1), s1[1]))
     R.floor('GROW-7', 2)
     R.floor('FSM-S5', 2)
     R.floor('FSM-P', 12)
@@ -245,23 +274,50 @@ def flow_rules(prog, R):
     else:
         val = validators[0]
         n = 0
-        for b in prog.bodies.values():
-            if not b.key.startswith('fastq::Reader::') or b is val:
-                continue
+
+        from fsm import validator_set
+        vset = validator_set(prog, 'fastq')
+        # the same question asked path-sensitively by the abstract interpreter: whenever the search reports a located record
+        # whose end was assigned in this call, the validator has run since
+        exq = _cache.get('fastq')
+        ghost_ok = None
+        if exq is not None and not exq['interp'].imprecise and exq['interp'].events.get('located-with-end', 0) > 0:
+            ghost_ok = not [v for v in exq['interp'].violations if v[0] == 'FSM-V']
+            if ghost_ok:
+                R.add('FSM-V', 'fastq::Reader', 'located-records-are-validated', True, 'src/fastq.rs',
+                      'in all %d explored activations in which the search reported a record it completed, the validator had run after the end offset was assigned' % exq['interp'].events['located-with-end'])
+        from rules_err import ok_return_blocks
+        readers = [b for b in prog.bodies.values() if b.key.startswith('fastq::Reader::') and b.path not in vset and '{closure' not in b.key]
+
+        def judge(b, blkidx, line, depth, via):
+            """from block blkidx of b (where the record end was assigned, or a helper that assigns it was called) no success
+            return may be reached without validation; a helper that never validates hands the obligation to its callers"""
+            nonlocal n
+            vblocks = set(x for x, t in b.calls() if prog.local_callee_body(t.callee) is not None and prog.local_callee_body(t.callee).path in vset)
+            okret = ok_return_blocks(b)
+            reach = b.cfg.reach_from(blkidx, removed=vblocks, include_start=True)
+            # the assignment block itself may call the validator at its end
+            bad = [r for r in okret if r in reach and blkidx not in vblocks]
+            rets = [x for x in b.cfg.reachable if b.blocks[x].term.k == 'return' and x in reach]
+            if not vblocks and depth < 3 and (bad or (not okret and rets)):
+                callers = [(cb_, x) for cb_ in readers for x, t in cb_.calls() if prog.local_callee_body(t.callee) is b]
+                if callers:
+                    for cb_, x in callers:
+                        judge(cb_, x, cb_.blocks[x].term.line, depth + 1, via + [b.key.rsplit('::', 1)[-1]])
+                    return
+            n += 1
+            okv = not bad and bool(vblocks)
+            R.add('FSM-V', b, 'completion-site#%d' % n, okv or bool(ghost_ok), site(b, line),
+                  'record end assigned%s; success return reachable without validation: %s%s' % (
+                      ' (in %s)' % ' <- '.join(via) if via else '', bad,
+                      '' if okv or not ghost_ok else ' - only on paths on which no record is reported as located (decided path-sensitively, see located-records-are-validated)'))
+        for b in readers:
             for blk in b.blocks:
                 if blk.idx not in b.cfg.rset:
                     continue
-                for s in blk.stmts:
-                    if s.k == 'assign' and [p['name'] for p in s.place.proj if p['k'] == 'field'] == ['buf_pos', 'pos', '1'] and not (s.rv.k == 'use' and s.rv.ops[0].is_const):
-                        n += 1
-                        vblocks = set(x for x, t in b.calls() if prog.local_callee_body(t.callee) is val)
-                        from rules_err import ok_return_blocks
-                        okret = ok_return_blocks(b)
-                        reach = b.cfg.reach_from(blk.idx, removed=vblocks, include_start=True)
-                        # the assignment block itself may call the validator at its end
-                        bad = [r for r in okret if r in reach and blk.idx not in vblocks]
-                        R.add('FSM-V', b, 'completion-site#%d' % n, not bad and bool(vblocks), site(b, s.line),
-                              'record end assigned; success return reachable without validation: %s' % bad)
+                for s_ in blk.stmts:
+                    if s_.k == 'assign' and [p['name'] for p in s_.place.proj if p['k'] == 'field'] == ['buf_pos', 'pos', '1'] and not (s_.rv.k == 'use' and s_.rv.ops[0].is_const):
+                        judge(b, blk.idx, s_.line, 0, [])
         R.floor('FSM-V', 3)
     # ---------------- FSM-D
     deleg = []
@@ -375,12 +431,17 @@ def flow_rules(prog, R):
                         and t.args and all(r[0] == 'arg' and [q[1] for q in r[-1]] == ['buf_pos'] for r in roots_of(b, t.args[0], du)))
         srcseek = [(x, t) for x, t in b.calls() if t.callee and t.callee.is_('std::io::Seek::seek')]
         fills = [(x, t) for x, t in b.calls() if prog.local_callee_body(t.callee) in refills]
+        # ... or in a closure of this function (`seek(..).and_then(|_| fill_buf(..))`)
+        for cb in prog.bodies.values():
+            if cb.key.startswith(b.key + '::{closure') and cb.promoted_of is None:
+                fills += [(None, t) for _, t in cb.calls() if prog.local_callee_body(t.callee) in refills]
         n = 0
         for r in okret:
             n += 1
             def must(blocks):
                 return bool(blocks) and r not in b.cfg.reach_from(0, removed=blocks, include_start=True)
             far = any(x in b.cfg.dom.get(r, ()) or b.cfg.dominates(x, r) for x, _ in srcseek)
+            far_undecided = False
             ok1 = must(set_pos) and positioned
             ok2 = must(reset_partial)
             ok3 = must(reset_buf)
@@ -394,9 +455,14 @@ def flow_rules(prog, R):
                     if ops:
                         rs = roots_of(b, ops[0], du)
                         tgt_ok = bool(rs) and all(q[0] == 'arg' and q[1] == 2 and [f[1] for f in q[-1]] == ['byte'] for q in rs)
+                helper_fill = not fills and any(prog.local_callee_body(t_.callee) is not None and prog.local_callee_body(t_.callee).key.startswith(('fasta::Reader::', 'fastq::Reader::')) and
+                                                 prog.local_callee_body(t_.callee).arg_count >= 1 and '&mut' in prog.local_callee_body(t_.callee).local_tys[1] and
+                                                 not is_buffer_call(prog, t_.callee) for _, t_ in b.calls())
+                ok_wo_fill = ok and tgt_ok
                 ok = ok and tgt_ok and bool(fills)
-                det += ', source seeks to Start(to.byte) %s (that the buffer is refilled before a successful return is BUF-2, decided path-sensitively)' % tgt_ok
-            R.add('SEEK-1', b, '%s-branch' % ('far' if far else 'in-buffer'), ok, site(b, b.blocks[r].term.line or b.span['lo']), det)
+                det += ', source seeks to Start(to.byte) %s (that the buffer is refilled before a successful return is BUF-2, decided path-sensitively)%s' % (tgt_ok, '; the refill is not called here directly (a private helper is): not judged' if (helper_fill and ok_wo_fill) else '')
+                far_undecided = helper_fill and ok_wo_fill
+            R.add('SEEK-1', b, '%s-branch' % ('far' if far else 'in-buffer'), ok, site(b, b.blocks[r].term.line or b.span['lo']), det, undecided=(not ok) and far and far_undecided)
         # position itself is set to the target
         posw = blocks_where(lambda blk: any(s.k == 'assign' and s.place.local == 1 and [p['name'] for p in s.place.proj if p['k'] == 'field'] == ['position'] for s in blk.stmts))
         R.add('SEEK-1', b, 'position-set-to-target', bool(posw) and all(r not in b.cfg.reach_from(0, removed=posw, include_start=True) for r in okret), site(b, b.span['lo']),
@@ -441,6 +507,7 @@ def flow_rules(prog, R):
         srcseek = [(x, t) for x, t in b.calls() if t.callee and t.callee.is_('std::io::Seek::seek')]
         okret = set(x for x in b.cfg.reachable if any(st.k == 'assign' and st.place.local == 0 and st.rv.k == 'agg' and st.rv.j.get('variant') == 'Ok' for st in b.blocks[x].stmts))
         discard = set(x for x, t in b.calls() if is_discard_all(prog, b, t, du))
+        maybe_discard = set(x for x, t in b.calls() if consume_amount_is_opaque(prog, b, t, du))
         n = 0
         for sx, stt in srcseek:
             n += 1
@@ -460,7 +527,7 @@ def flow_rules(prog, R):
                             if r[0] == 'agg' and r[1].rv.j.get('agg') == 'closure' and any(
                                     any(q[0] == 'arg' and q[1] == 1 for q in roots_of(b, o, du)) for o in r[1].rv.ops if not o.is_const):
                                 opaque.add(x)
-            bad_vis = [r for r in bad if r in b.cfg.reach_from(sx, removed=okret | discard | opaque)]
+            bad_vis = [r for r in bad if r in b.cfg.reach_from(sx, removed=okret | discard | opaque | maybe_discard)]
             R.add('SEEK-3', b, 'failed-seek-discards-buffer#%d' % n, not bad and bool(fail_exits), site(b, stt.line),
                   'seek can fail after trying to reposition the source and return with the old buffer content still in place: %s%s' % (bool(bad), ' (only through closures / helpers this rule does not look into: not judged)' if bad and not bad_vis else ''),
                   undecided=bool(bad) and not bad_vis)
@@ -483,6 +550,45 @@ def flow_rules(prog, R):
     # ---- formats whose code the abstraction cannot follow precisely: the state-machine rules give no verdict there
     for fmt in ('fasta', 'fastq'):
         ex = _cache.get(fmt)
+        def candidate_full_test(fmt_):
+            """a comparison of two non-constant quantities that decides a `state = Finished` (an end-of-input test the
+            abstraction did not recognise, e.g. on cached copies of length and capacity)"""
+            from rules_view import controlling_switches
+            for b_ in prog.bodies.values():
+                if not b_.key.startswith('%s::Reader::' % fmt_):
+                    continue
+                fin = [x for x in b_.cfg.reachable for st in b_.blocks[x].stmts if st.k == 'assign' and st.rv.k == 'agg' and st.rv.j.get('variant') == 'Finished']
+                for x in fin:
+                    for a in controlling_switches(b_, x):
+                        for r in roots_of(b_, b_.blocks[a].term.discr):
+                            if r[0] == 'call' and prog.local_callee_body(r[1].callee) is not None and prog.local_callee_body(r[1].callee).local_tys[0] == 'bool':
+                                # the test sits in a private predicate (`fn input_exhausted(&self) -> bool`)
+                                hb_ = prog.local_callee_body(r[1].callee)
+                                from mir import data_deps
+                                for blk_ in hb_.blocks:
+                                    for st_ in blk_.stmts:
+                                        if st_.k == 'assign' and st_.rv.k == 'bin' and st_.rv.j['op'] in ('Lt', 'Le', 'Gt', 'Ge') and not any(o.is_const for o in st_.rv.ops):
+                                            if all(any(d[0] == 'arg' and d[1] == 1 for d in data_deps(hb_, o)) and not any(d[0] == 'arg' and d[1] != 1 for d in data_deps(hb_, o)) for o in st_.rv.ops):
+                                                return True
+                            if r[0] == 'bin' and r[1].rv.j['op'] in ('Lt', 'Le', 'Gt', 'Ge') and not any(o.is_const for o in r[1].rv.ops):
+                                # both sides are quantities of the reader itself (fields of self / calls on them), not of an argument
+                                from mir import data_deps
+                                own = True
+                                for o in r[1].rv.ops:
+                                    dd = data_deps(b_, o)
+                                    if any(d[0] == 'arg' and d[1] != 1 for d in dd) or not any(d[0] == 'arg' and d[1] == 1 for d in dd):
+                                        own = False
+                                if own:
+                                    return True
+            return False
+        if ex is not None and ex['interp'].events.get('full-evidence', 0) == 0 and candidate_full_test(fmt):
+            # the "buffer is full" test (len < capacity feeding the end-of-input decision) was not recognised anywhere
+            # (e.g. it is made on cached copies of the two quantities): GROW-7 has nothing to reason from
+            for it_ in R.items:
+                if it_['rule'] == 'GROW-7' and not it_['ok'] and ('%s::' % fmt) in it_['key'] and 'end-of-input-test' not in it_['key']:
+                    it_['ok'] = True
+                    it_['undecided'] = True
+                    it_['detail'] = 'no verdict (no "buffer full" test recognised in this shape of the code) - the abstraction reported: %s' % it_['detail'][:160]
         if ex is None or not ex['interp'].imprecise:
             continue
         why = '; '.join(sorted(ex['interp'].imprecise))
@@ -549,8 +655,21 @@ def run_seek4(prog, R):
         init.env[2] = Aff.sym(TO)
         paths = Sym(prog, b).run(0, init=init)
         oks = [p for p in paths if p.end[0] == 'return' and getattr(p.env.get(0), 'variant', None) == 'Ok']
+        cg_ = prog.call_graph()
+        seek_memo = {}
+
+        def seeks_source(pth, stack=()):
+            if pth in seek_memo:
+                return seek_memo[pth]
+            if pth in stack:
+                return False
+            bb_ = prog.bodies.get(pth)
+            v_ = bool(bb_) and (any(t_.callee and t_.callee.is_('std::io::Seek::seek') for _, t_ in bb_.calls()) or any(seeks_source(q_, stack + (pth,)) for q_ in cg_.get(pth, ())))
+            seek_memo[pth] = v_
+            return v_
+
         def touches_source(p):
-            return any(t.callee and t.callee.is_('std::io::Seek::seek') for (_, t, _) in p.effects)
+            return any(t.callee and (t.callee.is_('std::io::Seek::seek') or (prog.local_callee_body(t.callee) is not None and seeks_source(prog.local_callee_body(t.callee).path))) for (_, t, _) in p.effects)
         near = [p for p in oks if not touches_source(p)]
         far = [p for p in oks if touches_source(p)]
         if not near:
@@ -560,25 +679,48 @@ def run_seek4(prog, R):
             n += 1
             resets = [a for (_, t, a) in p.effects if t.callee and (prog.local_callee_body(t.callee) is not None) and prog.local_callee_body(t.callee).key.endswith('BufferPosition::reset')]
             newstart = resets[-1][1] if resets and len(resets[-1]) == 2 else p.store.get(start_loc)
+            # `usize::try_from(pos)`: its Ok payload is pos itself, and taking the Ok arm means pos >= 0
+            tf = {}
+            for (bx_, t_, a_) in p.effects:
+                if t_.callee and t_.callee.path in ('std::convert::TryFrom::try_from', 'std::convert::TryInto::try_into') and len(a_) == 1 and isinstance(a_[0], Aff):
+                    tf[('call', t_.callee.path, bx_)] = a_[0]
+            if isinstance(newstart, Aff):
+                newstart = newstart.subst(lambda sy: tf.get(sy[1]) if (isinstance(sy, tuple) and sy[0] == 'f' and sy[1] in tf and sy[2] == 'Ok') else None)
+            def untf0(v_):
+                return v_.subst(lambda sy: tf.get(sy[1]) if (isinstance(sy, tuple) and sy[0] == 'f' and sy[1] in tf and sy[2] == 'Ok') else None)
             ok5 = isinstance(newstart, Aff) and newstart == X
-            opaque_ns = isinstance(newstart, Aff) and any(isinstance(sy, tuple) and sy[0] in ('call', 'try') for sy in newstart.t)
+            opaque_ns = isinstance(newstart, Aff) and any(isinstance(sy, tuple) and sy[0] in ('call', 'try') for sy in newstart.syms())
+            const_ns = isinstance(newstart, Aff) and newstart.is_const()     # a literal start on a "shortcut" path: a path the path enumeration cannot rule out (two tests of one fact), not a computed offset
             R.add('SEEK-5', b, 'shortcut-offset=start+target-current', ok5, where,
-                  'new record start on the in-buffer path = %r (required: %r)%s' % (newstart, X, ' - computed by a call this rule does not look into: not judged' if opaque_ns and not ok5 else ''),
-                  undecided=(not ok5) and opaque_ns)
+                  'new record start on the in-buffer path = %r (required: %r)%s' % (newstart, X, ' - computed by a call this rule does not look into / a literal: not judged' if (opaque_ns or const_ns) and not ok5 else ''),
+                  undecided=(not ok5) and (opaque_ns or const_ns))
             if fmt == 'fasta':
                 sp = p.store.get(('f', SELF, None, 'search_pos'))
                 oksp = isinstance(sp, Aff) and isinstance(newstart, Aff) and (sp - newstart).is_const() and (sp - newstart).c in (0, 1)
-                R.add('SEEK-5', b, 'shortcut-search-restarts-at-record-start', oksp, where, 'search position on the in-buffer path = %r, record start = %r' % (sp, newstart))
+                if isinstance(sp, Aff):
+                    sp = untf0(sp)
+                    oksp = isinstance(newstart, Aff) and (sp - newstart).is_const() and (sp - newstart).c in (0, 1)
+                R.add('SEEK-5', b, 'shortcut-search-restarts-at-record-start', oksp, where, 'search position on the in-buffer path = %r, record start = %r' % (sp, newstart),
+                      undecided=(not oksp) and (opaque_ns or const_ns))
             # SEEK-4: conditions of the path imply 0 <= X < L
             if not isinstance(newstart, Aff):
                 R.add('SEEK-4', b, 'shortcut-requires-offset-below-buffer-length', False, where, 'the new record start is not an affine value')
                 continue
             preds = []
+            conds_ = []
             for (_, d, taken) in p.conds:
                 s1 = d.single() if isinstance(d, Aff) else None
-                if not (isinstance(s1, tuple) and s1[0] == 'cmp'):
-                    continue
-                op, a, c = s1[1], s1[2], s1[3]
+                if isinstance(s1, tuple) and s1[0] == 'cmp':
+                    conds_.append((s1[1], s1[2], s1[3], taken))
+                elif isinstance(s1, tuple) and s1[0] == 'discr' and s1[1] in tf and taken == 0:
+                    conds_.append(('Ge', tf[s1[1]], Aff.const(0), 1))      # try_from(x) is Ok:  x >= 0
+                elif isinstance(s1, tuple) and s1[0] == 'inrange' and (taken is None or taken != 0):
+                    conds_.append(('Ge', s1[3], s1[1], 1))      # (lo..hi).contains(&x) taken:  lo <= x
+                    conds_.append(('Lt', s1[3], s1[2], 1))      #                                x < hi
+            def untf(v_):
+                return v_.subst(lambda sy: tf.get(sy[1]) if (isinstance(sy, tuple) and sy[0] == 'f' and sy[1] in tf and sy[2] == 'Ok') else None) if isinstance(v_, Aff) else v_
+            conds_ = [(op_, untf(a_), untf(c_), tk_) for (op_, a_, c_, tk_) in conds_]
+            for (op, a, c, taken) in conds_:
                 diff = a - c
                 # diff = alpha * newstart' + beta * L + k   where newstart' = newstart without its constant
                 base = newstart - Aff.const(newstart.c)
@@ -606,11 +748,23 @@ def run_seek4(prog, R):
                 return True
             bad_hi = [(u, ln) for ln in (0, 1, 5, 1 << 20) for u in (ln, ln + 1, ln + (1 << 30)) if holds(u, ln)]
             bad_lo = [(u, ln) for ln in (1, 5, 1 << 20) for u in (-1, -2, -(1 << 30)) if holds(u, ln)]
-            nojudge = (not preds) and opaque_ns
+            # no recognisable comparison at all although the path is conditional (the test is made by a call this rule
+            # does not model): not judged; an unconditional shortcut is a violation
+            # a comparison of the offset with something this rule cannot interpret (a cached length field, a call result)
+            uninterpreted = False
+            base_ns = newstart - Aff.const(newstart.c)
+            for (op_, a_, c_, tk_) in conds_:
+                dd_ = a_ - c_
+                k0_ = next(iter(base_ns.t), None)
+                if k0_ is not None and dd_.t.get(k0_, 0) != 0:
+                    rest_ = dd_ - base_ns.scale(dd_.t[k0_] // base_ns.t[k0_]) if dd_.t[k0_] % base_ns.t[k0_] == 0 else dd_
+                    if any(sy != L and not (isinstance(sy, tuple) and sy[0] == 'call' and 'capacity' in str(sy[1])) for sy in rest_.t):
+                        uninterpreted = True      # (the capacity is recognised - and it is not the length of the buffer)
+            nojudge = ((not preds) or (uninterpreted and bool(bad_hi))) and (opaque_ns or uninterpreted or any(isinstance(d, Aff) and any(isinstance(sy, tuple) and sy[0] == 'call' for sy in d.syms()) for (_, d, _) in p.conds))
             R.add('SEEK-4', b, 'shortcut-requires-offset-below-buffer-length', bool(preds) and not bad_hi, where,
-                  '%d comparisons of the new record start with the buffer length / constants guard the shortcut; admitted although offset >= length: %s%s' % (len(preds), bad_hi[:2], ' (the offset is the result of a call: not judged)' if nojudge else ''), undecided=nojudge)
+                  '%d comparisons of the new record start with the buffer length / constants guard the shortcut; admitted although offset >= length: %s%s' % (len(preds), bad_hi[:2], ' (the offset is the result of a call: not judged)' if nojudge else ''), undecided=nojudge or const_ns)
             R.add('SEEK-4', b, 'shortcut-requires-nonnegative-offset', bool(preds) and not bad_lo, where,
-                  'admitted although offset < 0: %s' % (bad_lo[:2],), undecided=nojudge)
+                  'admitted although offset < 0: %s' % (bad_lo[:2],), undecided=nojudge or const_ns)
         for p in far[:1]:
             resets = [a for (_, t, a) in p.effects if t.callee and (prog.local_callee_body(t.callee) is not None) and prog.local_callee_body(t.callee).key.endswith('BufferPosition::reset')]
             v = resets[-1][1] if resets and len(resets[-1]) == 2 else p.store.get(start_loc)
